@@ -6013,6 +6013,9 @@ class Path(Shape, MutableSequence):
     def __iadd__(self, other):
         if isinstance(other, str):
             self.parse(other)
+        elif isinstance(other, Path) and not other.transform.is_identity():
+            # Like any other shape the path is added as it draws, with its own transform applied.
+            self.extend(list(abs(other)))
         elif isinstance(other, (Path, Subpath)):
             self.extend(map(copy, list(other)))
         elif isinstance(other, Shape):
